@@ -21,7 +21,19 @@ pub fn build(kind: u64, rng: &mut Rng, scale: u64) -> Model {
         width: 0,
     };
     let mut g = DagGen::new(cfg, rng);
-    match kind % 4 {
+    match kind % 5 {
+        4 => {
+            // comb: a spine where every command also has a side tip: > 256 convergence points at
+            // distinct max_cuts, each in its own segment, all pending in one multi-head commit
+            let n = sz(g.rng.urange(300, 420));
+            let mut c = g.child(0);
+            for _ in 0..n {
+                let next = g.child(c);
+                let tip = g.child_with(c, Prio::Basic(0));
+                let _ = tip;
+                c = next;
+            }
+        }
         0 => {
             // two (or three) long concurrent branches: braid of 600-1000 entries
             let root = g.chain(0, 2);
@@ -86,7 +98,7 @@ pub fn build(kind: u64, rng: &mut Rng, scale: u64) -> Model {
 
 pub fn case(cs: u64, args: &Args, mons: &mut Mons, case: &Value) {
     let mut rng = Rng::new(cs);
-    let kind = cs % 4;
+    let kind = (cs & 7) % 5;
     let _ = kind;
     let mut model = build(kind, &mut rng, args.scale.min(100));
     let all = all_bits(&model);
@@ -129,7 +141,7 @@ pub fn case(cs: u64, args: &Args, mons: &mut Mons, case: &Value) {
         if let Some(m) = mons.get(id) {
             m.eval();
             m.nontrivial(h);
-            m.seen("large_kinds", ["long-branches", "convergence-fanout", "long-chain-skip-boundaries", "wide-fan"][kind as usize]);
+            m.seen("large_kinds", ["long-branches", "convergence-fanout", "long-chain-skip-boundaries", "wide-fan", "comb"][kind as usize]);
         }
     }
     mons.take(obs, case);
